@@ -13,3 +13,15 @@ META["C18"] = {
     "level_note": "reference map + porcupine + bbolt trusted; postgres back-end not runnable offline; power-loss semantics out of scope",
     "technique": "runtime differential oracle: real back-ends vs reference map over exhaustive short and random long histories; porcupine linearizability of recorded concurrent histories",
 }
+META["C17"] = {
+    "level": "exploration",
+    "level_text": "hash equality across all encoding paths, sensitivity to each committed parameter, insensitivity to membership/order, and rejection of mismatching embedded hashes, observed on every generated group/info of the run (120 quick / 3000 thorough groups, ~45 derived checks each)",
+    "level_note": "generator covers all schemes and optional-field combinations; trusts the hash functions' collision resistance",
+    "technique": "runtime metamorphic oracle on real encode/decode/hash functions over generated groups and single-field perturbations",
+}
+META["C20"] = {
+    "level": "exploration",
+    "level_text": "decode(encode(v)) == v (field by field, by hash, by re-encoding) for every generated value of the run on every persistence/wire path, plus refusal of out-of-range group encodings; DKG database records and files written by real DKG runs are re-read with fresh objects (dkg engine)",
+    "level_note": "comparison functions are the harness's own field-by-field ones (Group.Equal ignores genesis time and catch-up period); generators stay within values the system can produce",
+    "technique": "runtime round-trip oracle on real encoders/decoders over generated values; reflection-filled DKG state records",
+}
